@@ -679,6 +679,9 @@ def builtinMut (recv : SVal ν) (m : String) (args : List (SVal ν)) : SM ν (SV
     pure (match lookupA k kvs with
       | some v => (.dict (kvs.filter (·.1 != k)), v)
       | none => (.dict kvs, .null))
+  -- numbers are changed in place by 自增 / 自减 (the receiver afterwards holds the sum / difference, which is also the result)
+  | .num x, "自增", [.num y] => pure (.num (NumOps.add x y), .num (NumOps.add x y))
+  | .num x, "自减", [.num y] => pure (.num (NumOps.sub x y), .num (NumOps.sub x y))
   | _, _, _ => unspec
 
 /-- run a body (method / program): inputs bound in order as constants, handlers, result -/
